@@ -8,7 +8,7 @@ from typing import Any
 
 from ..boot import VERIF
 from ..engine import specgen, suite
-from ..runner import Divergence, Driver, Env, Outcome, Violation, diff_streams
+from ..runner import Divergence, Driver, Env, Outcome, Violation, diff_streams, load_known
 from ..server import status as S
 
 THEOREMS = [
@@ -17,7 +17,7 @@ THEOREMS = [
     "C15_never_stays_running_refuted_engine", "C15_never_stays_running_refuted_retries",
     "C15_never_stays_running_refuted_append", "C15_never_stays_running_refuted_idle_write",
     "C15_never_stays_running_partial", "C15_retry_budget", "C15_restart_finalizes", "C15_restart_fault_mislabels",
-    "C15_cancel_reflected_refuted", "C15_cancel_reflected_partial", "C15_budget_per_write",
+    "C15_cancel_reflected_refuted", "C15_cancel_reflected_partial", "C15_budget_per_write", "C15_late_request_keeps_outcome",
 ]
 LEAN_TARGETS = ["WfProps.C15"]
 EXPLANATION = (
@@ -44,7 +44,15 @@ EXPLANATION = (
     "chain, _WorkflowService.cancel_handler and _on_server_start over real memory and sqlite stores behind a fault proxy, "
     "comparing the stored row after every op. Search: generated scripted workflows on the full in-process stack "
     "(all outcomes x fault plans x both stores x with/without idle layer), cancels/sends through the service; histories of "
-    "3-6 sequential and concurrent runs on ONE runtime instance with in-budget faults per write, clauses 1/3 checked per run."
+    "3-6 sequential and concurrent runs on ONE runtime instance with in-budget faults per write, clauses 1/3 checked per run. "
+    "Races with the end of the run: external sends/cancels through the service against a SLOW store (the fault proxy parks the "
+    "handler lookup of a request after it took its snapshot, and parks un-idle status writes before they execute; the scheduler "
+    "decides what overtakes what, requests marked hold=end are answered only after the run has ended and stored its terminal "
+    "status), single runs and histories; clause 2 is judged around EVERY store write (status read behind the proxy before and "
+    "after the call): a write that finds the row of the run terminal and leaves it running is a violation, named by the terminal "
+    "status and the kind of write. C15_late_request_keeps_outcome: the writes issued for an external request (regenerated list of "
+    "calls passing idle_since=None, none with a status) leave run/status/result/error/completed_at untouched, for any number of "
+    "late deliveries."
 )
 LEVEL_TEXT = (
     "Machine-checked (Lean 4) for all programs, schedules and in-budget fault assignments over an executable model of the "
@@ -55,7 +63,9 @@ ASSUMPTIONS = suite.ENGINE_ASSUMPTIONS + [
     "in-process stack only (ServerRuntimeDecorator over IdleReleaseDecorator/PersistenceDecorator/BasicRuntime, memory and sqlite stores): "
     "the DBOS runtime (its own idle release, `_await_and_mark_released`) and the Postgres/agent-data stores are not modelled; with a store "
     "whose update_handler_status really suspends between its query and its update, concurrent read-modify-writes could interleave (both "
-    "stores here run it without suspension, checked by the monitors under the virtual loop)",
+    "stores here run it without suspension, checked by the monitors under the virtual loop); the slow store of the race cases delays "
+    "the ANSWER of a handler lookup (the snapshot is taken at call time) and the START of an un-idle write, never the inside of a "
+    "read-modify-write",
     "a transient store failure is an exception raised before the store call has any effect (fault proxy around update_handler_status / "
     "append_event / update); unbounded failure runs are a store outage: clause 1 and the partial of clause 3 assume at most len(backoff) "
     "consecutive failures per retried write",
@@ -161,6 +171,10 @@ HAND = [
     ["reset|1|500,3000", "start|1", "arm|uhs|1", "restart|stop:4|0|6", "start|2", "arm|uhs|2", "restart|nostate|0|6",
      "start|3", "ev|3|idle|0|0", "restart|fail:2|0|1", "idleclear|3", "restart|fail:2|1|1", "restart|idlereleased|0|1",
      "restart|timeout:9|0|1"],
+    # late deliveries: the external adapter's un-idle write after every kind of terminal status (and one hitting a store fault)
+    ["reset|1|500,3000", "start|1", "ev|1|idle|0|0", "idleclear|1", "ev|1|stop|7|0", "idleclear|1", "idleclear|1", "arm|uhs|1", "idleclear|1",
+     "idleclear|2", "start|2", "ev|2|failed|3|0", "idleclear|2", "start|3", "ev|3|cancelled|0|0", "idleclear|3", "start|4",
+     "ev|4|timedout|5|0", "idleclear|4", "idleclear|1"],
     ["reset|1|500,3000", "arm|upd|3", "start|1", "start|1", "arm|upd|2", "start|2", "uhs|2|running|_|_|s", "uhs|2|completed|4|_|u",
      "uhs|2|running|_|_|s", "uhs|1|failed|_|e1|u"],
 ]
@@ -230,6 +244,7 @@ def _corr(env: Env, out: Outcome, n_streams: int, n_sqlite: int) -> None:
 # (S) monitors on real runs
 
 ENDED = ("result", "cancelled", "timeout", "step_failure", "engine_failure", "store_fault")
+TERMINAL_EVENT_NAMES = ("T1", "StopEvent", "WorkflowFailedEvent", "WorkflowTimedOutEvent", "WorkflowCancelledEvent")
 EVENT_STATUS = {"WorkflowFailedEvent": "failed", "WorkflowTimedOutEvent": "failed", "WorkflowCancelledEvent": "cancelled"}
 
 
@@ -248,10 +263,39 @@ def _last_fault(res: S.CaseResult) -> tuple[str, Any, int] | None:
     return m, info, k
 
 
+def _writer(method: str, info: Any) -> str:
+    """which kind of store write it was (from the arguments of the call, not from the code that issued it)"""
+    if method == "upd":
+        return "row_upsert"
+    if method == "uhs" and len(info) >= 4:
+        if info[3]:
+            return "unidle_status_write"  # update_handler_status(..., idle_since=None)
+        if info[2]:
+            return "idle_status_write"  # update_handler_status(..., idle_since=<time>)
+        return "status_write"
+    return method
+
+
+def _first_flip(res: S.CaseResult) -> tuple | None:
+    """the first store write that found the row of this run with a terminal status and left it 'running'"""
+    for (rid, before, after, method, info) in res.transitions:
+        if rid == res.run_id and before in S.TERMINAL and after == "running":
+            return before, _writer(method, info)
+    return None
+
+
+def _resumed_after_end(res: S.CaseResult) -> bool:
+    """events of the run entered the server adapter after its terminal event: the ended run went on"""
+    names = [n for (r, n) in res.entered if r == res.run_id]
+    ends = [i for i, n in enumerate(names) if n in TERMINAL_EVENT_NAMES]
+    return bool(ends) and len(names) > ends[0] + 1
+
+
 def monitor(res: S.CaseResult) -> list[Violation]:
     vs: list[Violation] = []
     case = res.case
-    replay = {k: case.get(k) for k in ("store", "idle_timeout", "backoff", "spec", "fault", "seed", "restart", "restart_fault", "cancel_after_release") if k in case}
+    replay = {k: case.get(k) for k in ("store", "idle_timeout", "backoff", "spec", "fault", "seed", "restart", "restart_fault", "cancel_after_release",
+                                        "race", "late_delay") if k in case}
     replay["actions"] = res.actions
     hist = ""
     if res.replay_case is not None:
@@ -277,7 +321,20 @@ def monitor(res: S.CaseResult) -> list[Violation]:
             and res.record["status"] == "running":
         bad("cancel_reported_but_still_running:" + ("released_handler" if res.released_at_cancel else "active_handler"),
             "cancel_handler answered 'cancelled' but nothing was cancelled: the stored handler still says running")
-    if res.started and res.outcome == "aborted":
+    # --- a stored terminal status is never changed back to running: looked at around EVERY store write of the execution
+    #     (incl. the writes of requests that were still in flight when the run ended, and after the idle timers fired)
+    flip = _first_flip(res) if res.started else None
+    if flip is not None:
+        how = ""
+        if flip[1] == "idle_status_write":
+            # the idle adapter wrote for a run whose terminal event had already entered the server adapter: the ended run is alive again
+            if _resumed_after_end(res):
+                how = ":ended_run_resumed"
+        bad(f"terminal_to_running:{flip[0]}->running:by={flip[1]}{how}",
+            f"the row of the run was stored as {flip[0]} and a later {flip[1]} set it back to running; writes of the run "
+            f"(before->after): {[(b + '->' + a, _writer(m, i)) for (r, b, a, m, i) in res.transitions if r == res.run_id]}; requests in "
+            f"flight (or whose delivery was still queued) when the run ended: {res.late_requests}")
+    if res.started and res.outcome == "aborted" and flip is None:
         seen = False
         for (rid, st_) in res.status_trace:
             if rid == res.run_id and st_ in S.TERMINAL:
@@ -308,6 +365,8 @@ def monitor(res: S.CaseResult) -> list[Violation]:
     for which, r in (("", rec), ("late:", late)):
         if r is None:
             continue
+        if r["status"] == "running" and flip is not None:
+            break  # reported above as terminal_to_running (the row had the terminal status and lost it)
         if r["status"] == "running":
             if res.outcome == "engine_failure":
                 cause = "engine_side_failure"
@@ -326,8 +385,13 @@ def monitor(res: S.CaseResult) -> list[Violation]:
             bad("stays_running:" + cause, f"the run has ended ({res.outcome}: {res.outcome_detail}) and the stored handler still says running")
             break
         if r["status"] != expected:
-            bad(f"status_mismatch:{which}{res.outcome}:expected={expected}:got={r['status']}",
-                f"run ended as {res.outcome} but the stored status is {r['status']}")
+            over = [(b, a, _writer(m, i)) for (rid, b, a, m, i) in res.transitions if rid == res.run_id and b in S.TERMINAL and a in S.TERMINAL and a != b]
+            how = ""
+            if over and over[0][0] == expected and _resumed_after_end(res):
+                # the right status was stored and a later write of the same run replaced it by another terminal one
+                how = f":overwritten_by={over[0][2]}:ended_run_resumed"
+            bad(f"status_mismatch:{which}{res.outcome}:expected={expected}:got={r['status']}{how}",
+                f"run ended as {res.outcome} but the stored status is {r['status']}" + (f"; terminal status replaced: {over}" if over else ""))
             break
         if not r["completed_at"]:
             bad(f"completed_at_missing:{r['status']}", "terminal status without completed_at")
@@ -366,7 +430,7 @@ def monitor(res: S.CaseResult) -> list[Violation]:
                 bad("restart_missing_result", "finalised as completed without a result")
     # --- never back to running once terminal (same run), at any point of the execution incl. after the idle timers fired
     seen_terminal = False
-    for (rid, st) in res.status_trace:
+    for (rid, st) in (res.status_trace if flip is None else []):
         if rid != res.run_id:
             continue
         if st in S.TERMINAL:
@@ -466,6 +530,82 @@ def gen_case(rng: random.Random) -> dict:
     return {"store": store, "idle_timeout": idle, "backoff": backoff, "spec": spec, "fault": fault, "seed": rng.randrange(1 << 30)}
 
 
+def _ask(answer_script: list, sends: list, **kw: Any) -> dict:
+    """human in the loop: the start step asks (InputRequiredEvent), a second step consumes the HumanResponseEvent"""
+    d: dict[str, Any] = {"steps": [{"name": "s00", "accepts": [0], "nw": 1, "retry": None, "script": [["ret", "2"]]},
+                                   {"name": "s03", "accepts": [3], "nw": 1, "retry": None, "script": answer_script}],
+                         "externals": sends}
+    d.update(kw)
+    return d
+
+
+def _send(ty: int = 3, hold: str | None = None, after_quiet: int = 0, k: int | None = None) -> dict:
+    """an external send through the service; hold='end': the (slow) store answers its handler lookup only after the run has ended"""
+    return {"op": "send", "ty": ty, "k": k, "step": None, "after_quiet": after_quiet, "hold": hold}
+
+
+def race_corpus() -> list[dict]:
+    """requests racing with the end of the run on a store whose answers take time (S.FaultStore parking): two clients answer
+    the same question / an event arrives just as the run completes, fails, times out or is cancelled"""
+    specs = {
+        "two_answers": _ask([["ret", "stop"]], [_send(), _send(hold="end")]),
+        "answer_vs_failure": _ask([["fail_always", 4]], [_send(), _send(hold="end")]),
+        "late_event_vs_timeout": _ask([["ret", "stop"]], [_send(hold="end")], timeout=4),
+        "late_event_vs_cancel": _ask([["ret", "stop"]], [_send(hold="end"), {"op": "cancel", "after_quiet": 1}]),
+        "event_vs_gated_completion": _one([["gate"], ["ret", "stop"]], externals=[_send(ty=5, hold="end"), _send(ty=6)]),
+        "unheld": _ask([["gate"], ["ret", "stop"]], [_send(), _send(), _send(after_quiet=1)]),
+    }
+    out = []
+    for name, spec in specs.items():
+        for store in ("memory", "sqlite"):
+            out.append({"store": store, "idle_timeout": 1000.0, "backoff": None, "spec": spec, "fault": None, "seed": 1, "race": True})
+    out.append({"store": "memory", "idle_timeout": None, "backoff": None, "spec": specs["two_answers"], "fault": None, "seed": 1, "race": True})
+    out.append({"store": "memory", "idle_timeout": 1000.0, "backoff": None, "spec": specs["two_answers"],
+                "fault": {"kind": "uhs_terminal", "k": 2}, "seed": 2, "race": True})
+    return out
+
+
+def gen_race_case(rng: random.Random) -> dict:
+    store = "sqlite" if rng.random() < 0.2 else "memory"
+    backoff = rng.choice([None, None, [1.0], [0.1, 0.2, 0.3]])
+    budget = 2 if backoff is None else len(backoff)
+    r = rng.random()
+    if r < 0.45:
+        ans: list = []
+        if rng.random() < 0.4:
+            ans.append(["gate"])
+        ans.append(rng.choice([["ret", "stop"], ["ret", "stop"], ["ret", "stop"], ["fail_always", rng.randint(1, 9)], ["ret", "none"], ["ret", "2"]]))
+        spec = _ask(ans, [])
+        if rng.random() < 0.25:
+            spec["timeout"] = rng.choice([4, 10])
+        tys = [3, 3, 3, 13, 5]
+    elif r < 0.7:
+        spec = specgen.gen_wait_spec(rng)
+        tys = [3, 11, 3, 11, 6]
+    elif r < 0.85:
+        spec = json.loads(json.dumps(rng.choice([v for k, v in outcome_specs().items() if k in
+                                                 ("cancel", "cancel_vs_completion", "timeout", "idle_then_cancel", "success_after_retry")])))
+        tys = [5, 6, 3, 11]
+    else:
+        spec = specgen.gen_spec(rng, allow_sync=False)
+        tys = [3, 11, 5, 6, 7]
+    ext = [e for e in spec.get("externals", []) if e["op"] in ("send", "cancel")]
+    for e in ext:
+        if e["op"] == "send" and rng.random() < 0.4:
+            e["hold"] = "end"
+    for _ in range(rng.randint(1, 3)):
+        ext.append(_send(ty=rng.choice(tys), hold="end" if rng.random() < 0.5 else None, after_quiet=rng.randint(0, 2), k=rng.choice([None, 1, 2])))
+    if rng.random() < 0.15:
+        ext.append({"op": "cancel", "after_quiet": rng.randint(0, 3)})
+    rng.shuffle(ext)
+    spec["externals"] = ext
+    idle = rng.choice([1000.0, 1000.0, 1000.0, 1000.0, None, 2.0, 5.0])
+    fault = None
+    if budget and rng.random() < 0.2:
+        fault = {"kind": "uhs_terminal", "k": rng.randint(1, budget)}
+    return {"store": store, "idle_timeout": idle, "backoff": backoff, "spec": spec, "fault": fault, "seed": rng.randrange(1 << 30), "race": True}
+
+
 def history_corpus() -> list[dict]:
     """several runs on ONE runtime instance, every write within its own budget"""
     sp = outcome_specs()
@@ -503,6 +643,44 @@ def gen_history(rng: random.Random) -> dict:
         items.append(it)
     return {"store": store, "idle_timeout": 1000.0 if rng.random() < 0.3 else None, "backoff": backoff, "history": items,
             "seed": rng.randrange(1 << 30)}
+
+
+def race_history_corpus() -> list[dict]:
+    """two clients answer the same question of one run while another run of the same runtime is at work; then the same again"""
+    two = _ask([["ret", "stop"]], [_send(), _send(hold="end")])
+    fails = _ask([["fail_always", 4]], [_send(), _send(hold="end")])
+    sp = outcome_specs()
+    out = []
+    for store in ("memory", "sqlite"):
+        out.append({"store": store, "seed": 6, "idle_timeout": 1000.0, "race": True,
+                    "history": [{"spec": two, "uhs": 1, "with_next": True}, {"spec": sp["cancel_vs_completion"]}, {"spec": fails, "uhs": 2},
+                                {"spec": two, "with_next": True}, {"spec": two}]})
+    return out
+
+
+def gen_race_history(rng: random.Random) -> dict:
+    h = gen_history(rng)
+    h["race"] = True
+    h["idle_timeout"] = 1000.0 if rng.random() < 0.85 else None
+    for it in h["history"]:
+        if rng.random() < 0.6:
+            c = gen_race_case(rng)
+            if c["idle_timeout"] in (2.0, 5.0):  # released runs are judged in the single-run cases
+                continue
+            it["spec"] = c["spec"]
+    return h
+
+
+def pending_witnesses() -> list[dict]:
+    """witnesses of violations on the unchanged code that are reported but not (yet) listed in known_findings.d: each is replayed
+    only once its signature is listed there (or with VERIF_C15_PENDING=1); the generated stream is steered away from their trigger
+    (requests in flight complete AT the end of the run, never after the idle layer has dropped the ended run)"""
+    out = []
+    if os.path.isdir(CORPUS):
+        for fn in sorted(os.listdir(CORPUS)):
+            if fn.startswith("pending_c15_") and fn.endswith(".json"):
+                out += json.load(open(os.path.join(CORPUS, fn))).get("witnesses", [])
+    return out
 
 
 def _load_corpus() -> list[dict]:
@@ -543,6 +721,7 @@ def _search(env: Env, out: Outcome, n: int) -> None:
             out.count(f"hist:{tag}:outcome:" + r.outcome)
             if r.record is not None:
                 out.count(f"hist:final:{r.outcome}->{r.record['status']}")
+            out.count(f"hist:{tag}:late_requests", len(r.late_requests))
             out.violations += monitor(r)
         if any(r.started for r in rs):
             out.nontrivial((json.dumps(case, sort_keys=True, default=repr), tuple(rs[0].actions)))
@@ -568,6 +747,12 @@ def _search(env: Env, out: Outcome, n: int) -> None:
         out.violations += monitor(run_one(case, "corpus"))
     for case in history_corpus():
         run_hist(case, "corpus")
+    for case in race_history_corpus():
+        run_hist(case, "race")
+    for case in race_corpus():
+        res = run_one(case, "race")
+        out.count("race:late_requests", len(res.late_requests))
+        out.violations += monitor(res)
     for case in restart_cases():
         res = run_one(case, "restart")
         out.count(f"run:restart:{res.outcome}:{res.record and res.record['status']}->{res.record_restart and res.record_restart['status']}")
@@ -579,9 +764,28 @@ def _search(env: Env, out: Outcome, n: int) -> None:
         if not any(v.signature == KNOWN[name] for v in vs):
             out.notes.append(f"known-finding witness '{name}' ({case.get('store')}) did not reproduce: outcome={res.outcome} "
                              f"row={res.record and res.record['status']}")
+    listed = {k["signature"] for k in load_known() if k["property"] == "C15" and k.get("status", "open") == "open"}
+    for w in pending_witnesses():
+        if w["signature"] in listed or os.environ.get("VERIF_C15_PENDING") == "1":
+            res = run_one(w["case"], "witness")
+            vs = monitor(res)
+            out.violations += vs
+            if not any(v.signature == w["signature"] for v in vs):
+                out.notes.append(f"witness of '{w['signature']}' did not reproduce: outcome={res.outcome} row={res.record and res.record['status']}")
     # generated histories on one runtime instance (every write within its own budget)
     for _ in range(max(1, n // 8)):
         run_hist(gen_history(rng), "gen")
+    # generated races: external requests against a slow store (lookups answered late, un-idle writes queued), the scheduler
+    # decides what overtakes what; stickiness is judged around every store write
+    for _ in range(max(1, n // 16)):
+        run_hist(gen_race_history(rng), "race")
+    for _ in range(max(1, n // 3)):
+        case = gen_race_case(rng)
+        res = run_one(case, "race")
+        out.count("race:late_requests", len(res.late_requests))
+        out.count("race:unidle_write_on_terminal_row", sum(1 for (r, b, a, m, i) in res.transitions
+                                                             if r == res.run_id and b in S.TERMINAL and m == "uhs" and i[3]))
+        out.violations += monitor(res)
     # generated stream (steered away from the known triggers)
     for _ in range(n):
         case = gen_case(rng)
@@ -599,7 +803,9 @@ def run(env: Env) -> Outcome:
                 "and sqlite vs the Lean model, row compared after every op; non-trivial = a terminal status was written; distinct by "
                 "(store, op stream). (S) scripted workflows on the full stack: every outcome x fault plan x store x idle layer; "
                 "non-trivial = the row was written more than once; distinct by (case, schedule); plus histories of 3-6 runs (some concurrent) "
-                "on ONE stack/runtime instance, every write within its own retry budget, clauses checked per run")
+                "on ONE stack/runtime instance, every write within its own retry budget, clauses checked per run; plus races: external "
+                "requests whose handler lookup / un-idle write is parked by a slow store and released by the scheduler or after the end of "
+                "the run (single runs and histories), terminal->running looked for around every store write")
     _corr(env, out, env.budget(200, 4500), env.budget(40, 1000))
     _search(env, out, env.budget(240, 5600))
     return out
